@@ -39,6 +39,9 @@ pub fn eval(ctx: &Ctx, op: &str, a: &[&str]) -> Option<String> {
     let input = npy::write_f8(&shape, &data);
     match op {
         "c13.view" => Some(render(&cli::run_sfs(&ctx.sfs_bin, &args_of(&o), &input))),
+        // the same, the spectrum arriving on stdin in two bursts (the first one a[8] bytes — shorter than the magic string, inside the header):
+        // what a pipeline stage sees when the stage before it writes in pieces
+        "c13.views" => Some(render(&cli::run_sfs_split(&ctx.sfs_bin, &args_of(&o), &input, a[8].parse().ok()?))),
         // the same as text at precision a[8]: `sfs view [options] --precision p`
         "c13.viewtext" => {
             let mut args = args_of(&o);
@@ -170,6 +173,7 @@ pub fn gen(ctx: &Ctx, rng: &mut Rng, out: &mut Vec<String>) {
             let line = format!("{}\t{}\t{}", nats(&shape), bits(&data), enc(&o));
             out.push(format!("c13.view\t{line}"));
             if subset.count_ones() >= 2 || ctx.tier_thorough { out.push(format!("c13.chain\t{line}")); }
+            if (si + subset as usize) % 8 == 3 { out.push(format!("c13.views\t{line}\t{}", [1usize, 2, 3, 5, 7, 64, 129][(si / 2 + subset as usize) % 7])); }
             if (si + subset as usize) % 4 == 0 { out.push(format!("c13.viewtext\t{line}\t{}", *rng.pick(&[0usize, 1, 3, 6, 12, 15]))); }
         }
     }
